@@ -193,6 +193,8 @@ structure CState where
   bg : Bg
   stopClosed : Bool
   runningClosed : Bool
+  /-- `Stop` calls in flight (caller ids): any number, concurrently -/
+  stoppers : List Nat
   ref : AMap SEntry
   stamp : Nat
   raced : List (Key × Nat)
@@ -201,7 +203,7 @@ structure CState where
 def CState.init (maxTTL t0 period : Int) : CState :=
   { m := [], now := t0, maxTTL := maxTTL, cls := [], period := period, nextTick := t0 + period,
     tickPending := false, tickerStopped := false, bg := .idle, stopClosed := false,
-    runningClosed := false, ref := [], stamp := 0, raced := [] }
+    runningClosed := false, stoppers := [], ref := [], stamp := 0, raced := [] }
 
 inductive Label where
   | set (k : Key) (v : Val) (ttl : Int)
@@ -216,8 +218,8 @@ inductive Label where
   | cEnd (id : Nat)
   | bgTake
   | bgExit
-  | stopCall
-  | stopReturn
+  | stopCall (caller : Nat)
+  | stopReturn (caller : Nat)
   deriving Repr, DecidableEq
 
 /-- What `Get k` returns in state `s`. -/
@@ -312,9 +314,16 @@ def cstep (s : CState) : Label → Option CState
       if s.bg = .idle ∧ s.stopClosed = true then
         some { s with bg := .exited, tickerStopped := true, runningClosed := true }
       else none
-  | .stopCall => some { s with stopClosed := true }
-  | .stopReturn =>
-      if s.stopClosed = true ∧ s.runningClosed = true then some s else none
+  | .stopCall caller =>
+      -- `if stopped.CompareAndSwap(false, true) { close(stopCh) }`: the first caller closes, every
+      -- caller then waits on runningCh
+      if caller ∈ s.stoppers then none else
+      some { s with stopClosed := true, stoppers := caller :: s.stoppers }
+  | .stopReturn caller =>
+      -- `<-c.runningCh` of THIS caller
+      if caller ∈ s.stoppers ∧ s.runningClosed = true then
+        some { s with stoppers := s.stoppers.filter (fun x => x != caller) }
+      else none
 
 /-- Run a list of labels; `none` as soon as one is not enabled. -/
 def crun (s : CState) : List Label → Option CState
